@@ -378,8 +378,21 @@ def _terms_included(want, got):
     pending = []
     # a term that names nothing but anonymous locals (`var:bool`) cannot be recognised again after any rewrite: it claims nothing
     def anonymous(a):
-        return a.startswith(('var', 'upvar:var')) or (a.startswith('field:') and a[6:].isdigit())
-    anon = [w for w in want if all(anonymous(a) for a in w.split('@')[0].split('&'))]
+        return a.startswith(('var', 'upvar:var'))
+    # (a tuple field -- `field:0` -- is the payload of some enum: when the test is which *std* variant an Option / Result /
+    # Poll / ControlFlow in it is, it comes and goes with `?`, `ok_or`, `ready!`; a comparison of it, or a match on one of
+    # h2's own enums, is a decision of the code: `Error::Reset(_, _, initiator)` .. `initiator == Remote`)
+    _STDV = {'Some', 'None', 'Ok', 'Err', 'Continue', 'Break', 'Ready', 'Pending'}
+
+    def anonymous_term(w):
+        atoms, _, o = w.partition('@')
+        parts = atoms.split('&')
+        if all(anonymous(a) for a in parts):
+            return True
+        if all(anonymous(a) or (a.startswith('field:') and a[6:].isdigit()) for a in parts):
+            return not o or set(o.lstrip('~').split('/')) <= _STDV
+        return False
+    anon = [w for w in want if anonymous_term(w)]
     want = [w for w in want if w not in anon]
     # ... unless the same anonymous test is still there with the *opposite* outcome only (`if overflow` -> `if !overflow`):
     # a flag that was rewritten into something nameable simply has no counterpart and is skipped
